@@ -314,8 +314,11 @@ func checkC08(c *core.Ctx, r *core.Report) {
 		"(2) TABLE — the timestamp prefix codes and payload widths written by compressTimestamp equal the case table of the reader's dodTimestampBitN, the value-header field widths written by compressValue equal those read by decompressValue, the first-delta width is the same constant on both sides, and the reader maps a 6-bit significant-bits field of 0 back to 64; " +
 		"(4) SIBLING — the leading-zero count compressValue keeps for the next value is the very value it writes into the 5-bit field; " +
 		"(5) HELD — the open compressor of a series is copied for a query only with the series lock held; " +
+		"(6) CURSOR — the rotated-block reader moves the cursor that narrows its next search of the series offset table only after a lookup that found its series; " +
 		"(3) LIVE — a scratch bytes.Buffer that is declared outside a loop, filled inside it and Reset on some path of the iteration is Reset on every path to the next iteration (leftover bytes of one series would be decoded as part of the next)."
 	r.NotCovered = "TSID hashing and collisions, tags-tree contents, rotation/restart behaviour, the series-file layout, value equality in general"
+
+	c08Cursor(c, r)
 
 	writeBits := c.Obj(pkgCompress, "bitWriter.writeBits")
 	writeI64 := c.Obj(pkgCompress, "writeInt64Bits")
